@@ -20,7 +20,10 @@ Env == InEnv(StdEnvIn(EnvId))
 Pre == StdPre(EnvId)
 L == IF P_SIZE >= 2 THEN LeavesFull ELSE LeavesSmall
 
-MkCase(e) == [e |-> e, run |-> Run(e, Env, Pre)]
+\* a universe element is a tree (environment E1) or [e, envid]
+MkCase(x) == IF "envid" \in DOMAIN x
+             THEN [e |-> x.e, envid |-> x.envid, run |-> Run2(x.e, InEnv(StdEnvIn(x.envid)), StdPre(x.envid), StdPost(x.envid))]
+             ELSE [e |-> x, envid |-> EnvId, run |-> Run(x, Env, Pre)]
 IsCase == "run" \in DOMAIN st
 
 AllU1(LL) == Concat([i \in 1..Len(Names1) |-> Calls1f(Names1[i], LL)])
@@ -50,6 +53,7 @@ Universe ==
     [] P_MODE = "builtins" -> BuiltinProgs(P_SIZE)
     [] P_MODE = "lazy" -> LazyProgs
     [] P_MODE = "opt" -> OptProgs
+    [] P_MODE = "over" -> OverProgs
     [] OTHER -> <<>>
 NU == Len(Universe)
 NSeeds == 64
@@ -62,8 +66,9 @@ Next == /\ "seed" \in DOMAIN st
            ELSE \E j \in SeedLo(st.seed)..SeedHi(st.seed) : st' = MkCase(Universe[j])
 
 Emit ==
-  /\ IsCase => EmitCase([fam |-> "eval", e |-> st.e, envid |-> EnvId])
-  /\ "envs" \in DOMAIN st => EmitCase([envid |-> EnvId, env |-> StdEnvIn(EnvId), pre |-> Pre])
+  /\ IsCase => EmitCase([fam |-> "eval", e |-> st.e, envid |-> st.envid])
+  /\ "envs" \in DOMAIN st => \A i \in 1..Len(EnvIds) :
+        EmitCase([envid |-> EnvIds[i], env |-> StdEnvIn(EnvIds[i]), pre |-> StdPre(EnvIds[i]), post |-> StdPost(EnvIds[i])])
 
 (* ---- the properties, on the specification (Mode A) ---- *)
 Acc == IsCase /\ st.run.acc
